@@ -174,7 +174,7 @@ def worker(job):
 def main(chk, tier, seed):
     chk.rule = RULE
     chk.assumptions = ["lexical order == plain string order of the variable names"]
-    n = 1800 if tier == "quick" else 20000
+    n = 1800 if tier == "quick" else 100000
     jobs = []
     per = 5 if tier == "quick" else 20
     chunk = (n + per - 1) // per
